@@ -27,7 +27,11 @@ LEVEL_NOTE = ('Bounded in the number of candidates per layer (<=3) and '
               'parameter definitions and smart types are opaque; map_args / '
               'get_delegate are uninterpreted here (their own contracts: '
               'C05/C12). Context.get_functions returning each layer as a set '
-              'is covered by C17.')
+              'is covered by C17; MultiContext.get_functions (the merged '
+              'layer is the union of the members\' layers) is part of this '
+              'check. BOUNDED (never counted): c06_perms.py - 560 overload '
+              'families x every enumeration order, a merged layer with one '
+              'implementation under three declarations x every member order.')
 
 
 def units(ctx):
